@@ -35,6 +35,7 @@ type POp struct {
 	Diags   []PDiag `json:",omitempty"`
 	Message string  `json:",omitempty"`
 	Par     int     `json:",omitempty"`
+	Inside  bool    `json:",omitempty"` // open / change: Diags are published downstream-side before the handler returns
 }
 
 // PEvent: one observable event of a run, grouped by the op that caused it.
